@@ -744,3 +744,16 @@ def dt_to_vj(cz, dt):
     z = dt.fields[2]
     name = z.fields[0] if z.ty == 'Tz' else ('UTC' if z.ty == 'Utc' else '?fixed')
     return {'t': 'dt', 'secs': secs, 'ns': ns % 1000000000 if ns < 1000000000 else ns, 'off': off, 'tz': name}
+
+
+@model('<NaiveDate as Debug>::fmt', '<NaiveTime as Debug>::fmt', '<NaiveDate as Display>::fmt', '<NaiveTime as Display>::fmt')
+def m_naive_debug_fmt(ex, site, a):
+    from .models_fmt import sink_of
+    v = deref(ex, a[0]); f = sink_of(ex, a[1])
+    if v.ty == 'NaiveDate':
+        y = v.fields[0]
+        if not is_sym(y) and not (0 <= y <= 9999): raise Unsupported('Debug of NaiveDate outside years 0..9999')
+        f.sink.extend(d_naive_date(ex, v, None))
+    else:
+        f.sink.extend(d_naive_time(ex, v, None))
+    return ok(unit())
